@@ -42,7 +42,8 @@ PGMsgs == [kind : {"ssl", "startup"},
            \* size: "small" = as short as the fields allow; "max" / "over": the first value padded so that the whole packet has
            \* exactly 10000 / 10001 bytes (MAX_STARTUP_PACKET_LENGTH is 10000) - more than MaxMatchingBytes, yet within what
            \* the matching buffer can hold after a last chunk read at 8191 bytes
-           size : {"small", "max", "over"}]
+           \* "big": 7000 bytes - a legal packet above three prefetch chunks and below the matching limit
+           size : {"small", "big", "max", "over"}]
 PGValid(m) == /\ m.kind = "ssl" => (m.major = 3 /\ m.params = 0 /\ m.term = "ok" /\ m.len \in {"exact", "zero", "three", "seven", "huge"} /\ m.size = "small")
               /\ m.kind = "startup" => (m.size # "small" => (m.len = "exact" /\ m.major = 3 /\ m.params = 1 /\ m.term = "ok"))
 \* ("nofinal" / "nonul": the final terminator / the last value's terminator is missing; the matcher documents "looks like the Postgres
